@@ -1,5 +1,8 @@
 mod m1;
 mod m3;
+mod gen;
+mod proj;
+mod m5;
 mod util;
 use util::*;
 
@@ -10,6 +13,8 @@ fn main() {
         ("c15", Some(p)) => m1::replay(&args, p),
         ("c14", None) => m3::run(&args),
         ("c14", Some(p)) => m3::replay(&args, p),
+        ("c01", None) => m5::run_c01(&args),
+        ("c01", Some(p)) => m5::replay(&args, "C01", p),
         (other, _) => {
             eprintln!("unknown command {other}");
             std::process::exit(2);
